@@ -983,13 +983,17 @@ int cp_rsa_ver(uint8_t *sig, size_t sig_len, const uint8_t *msg, size_t msg_len,
 			}
 #else
 			memset(h1, 0, RLC_MAX(msg_len, RLC_MD_LEN));
-			bn_write_bin(h1, size - pad_len, eb);
 
-			if (!hash) {
+			if (size - pad_len != (!hash ? RLC_MD_LEN : msg_len)) {
+				/* The payload must have the length of the value to match. */
+				result = RLC_NE;
+			} else if (!hash) {
+				bn_write_bin(h1, size - pad_len, eb);
 				md_map(h2, msg, msg_len);
 				/* Everything went ok, so signature status is changed. */
 				result = util_cmp_sec(h1, h2, RLC_MD_LEN);
 			} else {
+				bn_write_bin(h1, size - pad_len, eb);
 				/* Everything went ok, so signature status is changed. */
 				result = util_cmp_sec(h1, msg, msg_len);
 			}
